@@ -94,6 +94,18 @@ def gen(rng, tier):
                             if scope == "inherit" and shape == "pass":
                                 cases.append(dict(line="fc plus=%d kind=%s scope=%s mode=%s nb=%s shape=%s vsrns=e" % (plus, kind, scope, mode, nb, shape),
                                                   tags=["policy", kind, "inherit-other-namespace", mode], nontrivial=mode != "ok"))
+    # the Secret of the policy goes through the real secret store first: valid / invalid versions and look-ups in every order of
+    # length <= 3; what the generation is given is what the store hands out at the end
+    for plus in (0, 1):
+        for kind in ("jwt", "basic", "imtls", "emtls", "oidc", "apikey"):
+            if kind in ("jwt", "oidc") and not plus:
+                continue
+            for hist in ("v", "i", "vi", "iv", "vgi", "vig", "gvi", "viv", "ivi", "vgiv", "vvi"):
+                final = [c for c in hist if c != "g"][-1]
+                mode = "ok" if final == "v" else "secret-invalid"
+                scope = "spec" if kind == "imtls" else ("route" if (len(hist) + plus) % 2 else "spec")
+                cases.append(dict(line="fc plus=%d kind=%s scope=%s mode=%s nb=none shape=pass store=%s" % (plus, kind, scope, mode, hist),
+                                  tags=["policy", kind, "secret-through-the-store", mode], nontrivial=mode != "ok"))
     modes = ["ok", "secret-missing", "secret-invalid", "secret-wrongtype"]
     for plus in (0, 1):
         for res in ("ing", "master", "vs"):
